@@ -678,14 +678,22 @@ func ruleInputReadonly(c *eng.Ctx) {
 				}
 			}
 		}
+		// an unexported helper of the detector is judged only for parameters that some caller fills with data it did
+		// not build itself (a parameter, a field): a helper that sorts a group its caller just assembled in a
+		// slice of its own touches nobody's input
 		if !inFilters && !exported && !hf[fn] && !strings.Contains(path, eng.PositivePkg) {
 			continue
 		}
+		helperOnly := !inFilters && !exported && hf[fn] && !strings.Contains(path, eng.PositivePkg)
 		for k, p := range fn.Params {
 			if _, ok := p.Type().Underlying().(*types.Slice); !ok {
 				continue
 			}
 			key := fmt.Sprintf("%s#%s", eng.FuncName(fn), p.Name())
+			if helperOnly && allCallersPassOwnStorage(c.P, fn, k) {
+				c.Ok(R, key, fn.Pos(), "only ever given a slice its caller built itself")
+				continue
+			}
 			if mi, bad := mut[fn][k]; bad {
 				c.Viol(R, key, mi.pos, "the caller's slice "+p.Name()+" is written through ("+mi.what+"): data the caller keeps (cached stream bytes, a page's fragments) is changed by the call, so a second call on the same input sees something else")
 			} else {
@@ -3823,4 +3831,33 @@ func builtInOrderOf(src ssa.Value, field string, depth int) bool {
 		}
 	}
 	return true
+}
+
+// allCallersPassOwnStorage: at every call site of fn in the module the k-th argument is a slice the caller built in
+// its own storage (make, append chains, literals): nothing reachable from a parameter, a field or a global.
+func allCallersPassOwnStorage(p *eng.Prog, fn *ssa.Function, k int) bool {
+	n := 0
+	ok := true
+	for _, g := range p.ModuleFuncs() {
+		if g.Blocks == nil {
+			continue
+		}
+		for _, ci := range eng.Calls(g, true, func(_ string, ci ssa.CallInstruction) bool { return eng.StaticCallee(ci) == fn }) {
+			args := eng.ArgsWithRecv(ci)
+			if k >= len(args) {
+				ok = false
+				continue
+			}
+			n++
+			for w := range eng.Slice(args[k], nil) {
+				switch x := w.(type) {
+				case *ssa.Parameter, *ssa.Global, *ssa.FieldAddr, *ssa.Field, *ssa.FreeVar:
+					ok = false
+				case *ssa.Slice:
+					_ = x
+				}
+			}
+		}
+	}
+	return ok && n > 0
 }
